@@ -112,6 +112,7 @@ Definition pf08 (c : adm_case) := negb (P08 (ac_cfg c) (table_ev c) (ac_req c) (
 Definition pf09 (c : adm_case) := negb (P09 (ac_cfg c) (table_ev c) (ac_req c) (ac_world c) (ac_obs c) (ac_barepod c)).
 Definition pf10 (c : adm_case) := negb (P10 (ac_cfg c) (ac_req c) (ac_world c) (ac_obs c) (ac_create c) (ac_nosub c)).
 Definition pf11 (c : adm_case) := negb (P11 (ac_cfg c) (table_ev c) (ac_req c) (ac_world c) (ac_obs c)).
+Definition pf11cs (c : adm_case) := negb (P11_control_sets (ac_cfg c) (table_ev c) (ac_req c) (ac_world c) (ac_obs c)).
 Definition pf12 (c : adm_case) := negb (P12 (ac_cfg c) (table_ev c) (ac_req c) (ac_world c) (ac_obs c)).
 Definition pf18 (c : adm_case) := negb (P18_adm (ac_cfg c) (ac_req c) (ac_world c) (ac_obs c)).
 
